@@ -356,6 +356,10 @@ class FunctionReference:
         # Get cluster_name
         if cluster_name is not None:
             self._cluster_name = cluster_name
+        elif external:
+            # A reference to a function outside this process in the default cluster:
+            # there is no local function to ask
+            self._cluster_name = None
         else:
             self._cluster_name = (
                 memento_fn.cluster_name if memento_fn is not None else None
